@@ -461,7 +461,7 @@ def _step(root, e):
                 val = value(e["k"], e["v"])
                 obj = _input_form(e["k"][0], val)
                 if e["v"] == 2 and isinstance(obj, dict):
-                    obj = {k: (np.array(x) if isinstance(x, list) else x) for k, x in obj.items()}
+                    obj = {k: (np.asfortranarray(np.array(x)) if isinstance(x, list) else x) for k, x in obj.items()}      # ndarrays, column-major
                 api_write(root, e["k"], val, e["api"], e["sp"], data_obj=obj)
         except Exception as ex:          # noqa: BLE001
             return {"sig": f"{e['k'][0]}.{e['api']}:raised-{type(ex).__name__}", "detail": repr(ex)[:300]}
